@@ -163,7 +163,13 @@ func (t *Transaction) With(name string, readOnly bool, createFn func() (Cachable
 		 * for the manager while it still keeps a writer from the cache can
 		 * close a cycle with the goroutines of that writer's transaction. */
 		reused := false
+		removeFailed := false
 		defer func() {
+			if removeFailed {
+				t.manager.mu.Lock()
+				delete(t.manager.sharedCaches, name)
+				t.manager.mu.Unlock()
+			}
 			if reused {
 				t.manager.checkAndPrune()
 			}
@@ -273,12 +279,12 @@ func (t *Transaction) With(name string, readOnly bool, createFn func() (Cachable
 		}
 		if err := f(cacheToUse.item); err != nil {
 			/* Something went wrong, we'll scrap the cache and delete it from the
-			 * manager. */
+			 * manager. The deletion takes the manager lock, it is left to the
+			 * deferred function above so that a reader has released its read
+			 * lock by then. */
 			t.failed.Store(true)
 			cacheToUse.scrapped = true
-			t.manager.mu.Lock()
-			delete(t.manager.sharedCaches, name)
-			t.manager.mu.Unlock()
+			removeFailed = true
 			return fmt.Errorf("error while executing cache operation: %w", err)
 		}
 		return nil
